@@ -12,7 +12,7 @@ use serde_json::{json, Value as J};
 pub const KINDS: [&str; 8] = ["valid", "cycle", "mut-rules", "mut-data", "adversarial", "mut-template", "deep", "mut-both"];
 
 /// hand-written shapes the parser accepts and the evaluator has few tests for
-const ADVERSARIAL: [&str; 40] = [
+const ADVERSARIAL: [&str; 46] = [
     "let x = \"lit\"\nrule r { %x !empty }",
     "let x = [1, 2]\nrule r { %x exists\n %x is_list }",
     "let x = 5\nrule r { %x == 5\n %x is_int\n %x empty }",
@@ -53,6 +53,12 @@ const ADVERSARIAL: [&str; 40] = [
     "rule r { a[ b == %c ] exists }",
     "rule r { %undefined exists }",
     "rule r { a.%undefined exists\n a.%a exists }",
+    "let s = join(a, b[ x == 5 ])\nrule r { %s exists }",
+    "let s = join(b, c[ keys == \"zz\" ])\nrule r { %s exists }",
+    "let s = substring(a, b[ x == 5 ], 2)\nrule r { %s exists }",
+    "let s = substring(a, 0, b[ x == 5 ])\nrule r { %s exists }",
+    "let s = regex_replace(a, b[ x == 5 ], \"y\")\nrule r { %s exists }",
+    "let s = regex_replace(a, \"y\", a[ x == 5 ])\nrule r { %s exists }",
 ];
 
 const ADV_DOCS: [&str; 10] = [
